@@ -264,3 +264,15 @@ Proof.
   constructor; [|constructor]. split; [reflexivity|].
   apply al_take; [reflexivity|exact I|]. apply al_take; [reflexivity|exact I|apply al_nil].
 Qed.
+
+(* _get_enum_mapping puts the plain Enum[E] fields before the Optional ones: with a = Optional[Enum[Color]],
+   b = Enum[Color] and the document {"a": {"x": 1}, "b": "NOPE"} the member lookup of b fails first (KeyError),
+   not the hashing of a's value (TypeError) *)
+Definition env_eo : tenv :=
+  [mk "C" [fd "a" (TOpt false (TLeaf (LEnum (s2p "Color") color false))); fd "b" (TLeaf (LEnum (s2p "Color") color false))]
+      MapNone].
+Example C10_enum_mapping_order :
+  deser_trusted no_re no_o no_o env_eo 3 false (s2p "C")
+                (PDict [(PStr (s2p "a"), dict1 "x" (PNum (NInt 1))); (PStr (s2p "b"), PStr (s2p "NOPE"))])
+  = Raise KeyError.
+Proof. vm_compute. reflexivity. Qed.
